@@ -16,7 +16,7 @@ use std::time::Duration;
 pub static META: PropertyMeta = PropertyMeta {
     id: "C17",
     level: "exploration",
-    rule: "part A: a FIXED enumerated set of SwGen programs (base seed 0xC17, indices 0..6000; VERIF_SEED only rotates the order; quick covers a prefix per shard, thorough the whole set) - fixed because the unchanged compiler already has several internal-error classes on valid generated programs, each listed as a finding by message class / call site; part B (seed-driven): token- and line-level mutants (delete/duplicate/swap/replace tokens, swap types, rename/duplicate/delete declarations and statements, change literal suffixes) of single-file e2e programs; every case is compiled in debug and release through parsing, type checking, IR, asm and bytecode; an evaluation = one package; non-trivial = the package reached IR generation (no front-end error) or died inside the compiler; distinct = hash of the source text",
+    rule: "part A: a FIXED enumerated set of SwGen programs (base seed 0xC17, indices 0..6000; VERIF_SEED only rotates the order; quick covers a prefix per shard, thorough the whole set) - fixed because the unchanged compiler already has several internal-error classes on valid generated programs, each listed as a finding by message class / call site; part B (also a fixed enumerated set of 16 x 2500 mutants derived from a constant base seed; VERIF_SEED rotates the order): token- and line-level mutants (delete/duplicate/swap/replace tokens, swap types, rename/duplicate/delete declarations and statements, change literal suffixes) of single-file e2e programs; every case is compiled in debug and release through parsing, type checking, IR, asm and bytecode; an evaluation = one package; non-trivial = the package reached IR generation (no front-end error) or died inside the compiler; distinct = hash of the source text",
     assumptions: &[
         "a per-case watchdog expiry (possible non-termination) and an allocation failure under the 6 GiB address-space limit are recorded as inconclusive, never as violations",
         "un-suffixed numeric literals heading long operator chains (a known exponential type-checking case) are not manufactured by the mutators",
@@ -28,15 +28,53 @@ pub static META: PropertyMeta = PropertyMeta {
 
 pub static PROP: Prop = Prop {
     meta: &META,
-    plan: |t| Plan { nshards: 16, budget_s: t.pick(60.0, 1500.0), mem_gib: 6 },
+    plan: |t| Plan { nshards: 16, budget_s: t.pick(45.0, 1500.0), mem_gib: 6 },
     shard,
     replay,
     extra: crate::no_extra,
-    subcommand: crate::no_subcommand,
+    subcommand,
 };
+
+/// A shard process that dies of a stack overflow while compiling a case IS a compiler crash
+/// (forc compiles on its main thread with the same default 8 MiB stack). Anything else (kill,
+/// allocation failure abort) stays inconclusive.
+pub fn crash_policy(desc: &str, log_tail: &str) -> Option<(String, String, Value)> {
+    if !log_tail.contains("has overflowed its stack") {
+        return None;
+    }
+    let head = desc.lines().next().unwrap_or("");
+    let what = head.trim_start_matches("// C17 ");
+    // "mutant 123 of should_fail/x" -> class by seed program; "fixed generated program 17" -> by index
+    let class = match what.split_once(" of ") {
+        Some((_, name)) => format!("mutant-of:{name}"),
+        None => what.replace(' ', "-"),
+    };
+    let src: String = desc.lines().skip(1).collect::<Vec<_>>().join("\n") + "\n";
+    Some((format!("stack-overflow:{class}"), format!("[{what}] the compiler overflowed the 8 MiB main-thread stack (process abort)"), json!({"source": src, "crash": true, "class": class})))
+}
+
+/// `swverif c17-one <file>`: compile one source file in this process (used to replay crashes)
+fn subcommand(args: &[String]) -> Option<i32> {
+    if args.first().map(|s| s.as_str()) != Some("c17-one") {
+        return None;
+    }
+    let src = std::fs::read_to_string(&args[1]).expect("source file");
+    let work = work_dir("C17").join(format!("one{}", std::process::id()));
+    clean_dir(&work);
+    let mut am = Amortised::new(&work);
+    let mut res = ShardResult::default();
+    compile_case(&mut am, &src, "single case", json!({"source": src}), &mut res);
+    for v in &res.violations {
+        println!("violation: {} :: {}", v.signature, v.description);
+    }
+    let _ = std::fs::remove_dir_all(&work);
+    Some(if res.violations.is_empty() { 0 } else { 1 })
+}
 
 const FIXED_SEED: u64 = 0xC17;
 const FIXED_SET: u64 = 6000;
+/// mutants per shard (x 16 shards) in the fixed enumerated mutant set
+const MUT_PER_SHARD: u64 = 2500;
 
 fn is_ice(e: &sway_error::error::CompileError) -> bool {
     use sway_error::error::CompileError as E;
@@ -64,7 +102,9 @@ pub fn compile_case(am: &mut Amortised, src: &str, what: &str, replay: Value, re
                     res.inconclusive(format!("allocation failure while compiling ({what})"));
                     continue;
                 }
-                res.violation(panic_signature(&loc, &msg), format!("[{} {what}] compiler panicked at {loc}: {}", profile.name(), msg.chars().take(200).collect::<String>()), replay.clone());
+                // the class is the call site + the head of the message (longer messages embed
+                // addresses and source text)
+                res.violation(panic_signature(&loc, &msg.lines().next().unwrap_or("").chars().take(70).collect::<String>()), format!("[{} {what}] compiler panicked at {loc}: {}", profile.name(), msg.chars().take(200).collect::<String>()), replay.clone());
             }
             Ok(Err(e)) => {
                 res.count("harness_could_not_set_up_package");
@@ -321,12 +361,14 @@ fn shard(ctx: &ShardCtx) -> ShardResult {
     // case index i: even = fixed generated program, odd = mutant
     let mut i = ctx.first_index;
     while clock.left() {
+        let k = i / 2;
+        if k >= per_shard && k >= MUT_PER_SHARD {
+            // the whole fixed set has been explored
+            res.count("fixed_set_completed_by_shard");
+            break;
+        }
         if i % 2 == 0 {
-            let k = i / 2;
             if k >= per_shard {
-                if ctx.tier == Tier::Thorough && seeds.is_empty() {
-                    break;
-                }
                 i += 1;
                 continue;
             }
@@ -337,12 +379,15 @@ fn shard(ctx: &ShardCtx) -> ShardResult {
             ctx.begin_case(i, &format!("// C17 fixed generated program {j}\n{}", case.src), &res);
             compile_case(&mut am, &case.src, &format!("fixed generated program {j}"), json!({"fixed_index": j}), &mut res);
             ctx.end_case();
-        } else if !seeds.is_empty() {
-            let mut rng = ctx.rng(i);
+        } else if !seeds.is_empty() && k < MUT_PER_SHARD {
+            // mutants are a fixed enumerated set as well (the unchanged compiler already fails on
+            // some of them): mutant (shard, m) is a pure function of the constant base seed
+            let m_idx = (k + ctx.seed % MUT_PER_SHARD) % MUT_PER_SHARD;
+            let mut rng = rng_for(FIXED_SEED ^ 0x77, ctx.shard, m_idx);
             let (name, text) = &seeds[rng.gen_range(0..seeds.len())];
             let m = mutate(&mut rng, text, &mut res);
             res.count("mutants");
-            ctx.begin_case(i, &format!("// C17 mutant of {name}\n{m}"), &res);
+            ctx.begin_case(i, &format!("// C17 mutant {m_idx} of {name}\n{m}"), &res);
             compile_case(&mut am, &m, &format!("mutant of {name}"), json!({"source": m, "seed_program": name}), &mut res);
             ctx.end_case();
             if res.samples.len() < 2 {
@@ -356,8 +401,27 @@ fn shard(ctx: &ShardCtx) -> ShardResult {
 
 fn replay(v: &Value) -> ShardResult {
     let mut res = ShardResult::default();
-    let work = work_dir("C17").join("replay");
+    let work = work_dir("C17").join(format!("replay{}", std::process::id()));
     clean_dir(&work);
+    if v.get("crash").and_then(|x| x.as_bool()) == Some(true) {
+        // a case that killed the process: replay it in a child process
+        let f = work.join("crash_case.sw");
+        let _ = std::fs::write(&f, v["source"].as_str().unwrap_or(""));
+        res.evaluations += 1;
+        match std::process::Command::new(std::env::current_exe().unwrap()).arg("c17-one").arg(&f).output() {
+            Ok(o) => {
+                let err = String::from_utf8_lossy(&o.stderr).to_string();
+                if let Some((sig, d, r)) = crash_policy(&format!("// C17 replayed case\n{}", v["source"].as_str().unwrap_or("")), &err) {
+                    let sig = v.get("class").and_then(|x| x.as_str()).map(|c| format!("stack-overflow:{c}")).unwrap_or(sig);
+                    res.violation(sig, d, r);
+                } else if !o.status.success() {
+                    res.inconclusive(format!("child ended with {:?} without a stack overflow", o.status));
+                }
+            }
+            Err(e) => res.harness_fault = Some(format!("cannot spawn child: {e}")),
+        }
+        return res;
+    }
     let mut am = Amortised::new(&work);
     let src = if let Some(j) = v.get("fixed_index").and_then(|x| x.as_u64()) {
         let mut scratch = ShardResult::default();
